@@ -1,9 +1,9 @@
 package main
 
 import (
-	"go/types"
 	"fmt"
 	"go/token"
+	"go/types"
 	"strings"
 
 	"golang.org/x/tools/go/ssa"
@@ -412,43 +412,43 @@ func c13ListCompare(c *Ctx, p *Prog) {
 // off-screen).  A clamped origin shifts the region instead of clipping it.
 func lockRegionRange(c *Ctx, p *Prog, lr *ssa.Function, rule string) {
 
-		okRange, nLoops := true, 0
-		detail := ""
-		for _, b := range lr.Blocks {
-			for _, in := range b.Instrs {
-				phi, ok := in.(*ssa.Phi)
-				if !ok || len(phi.Edges) != 2 {
+	okRange, nLoops := true, 0
+	detail := ""
+	for _, b := range lr.Blocks {
+		for _, in := range b.Instrs {
+			phi, ok := in.(*ssa.Phi)
+			if !ok || len(phi.Edges) != 2 {
+				continue
+			}
+			var init ssa.Value
+			for i, e := range phi.Edges {
+				if !b.Dominates(b.Preds[i]) {
+					init = e
+				}
+			}
+			// its bound
+			for _, r := range referrers(phi) {
+				bo, ok := r.(*ssa.BinOp)
+				if !ok || bo.Op != token.LSS || bo.X != ssa.Value(phi) {
 					continue
 				}
-				var init ssa.Value
-				for i, e := range phi.Edges {
-					if !b.Dominates(b.Preds[i]) {
-						init = e
-					}
+				nLoops++
+				add, isAdd := bo.Y.(*ssa.BinOp)
+				prm, isPrm := derefCell(init).(*ssa.Parameter)
+				if !isPrm || !isAdd || add.Op != token.ADD || derefCell(add.X) != ssa.Value(prm) {
+					okRange = false
+					detail += fmt.Sprintf("loop from %s below %s; ", valName(init), valName(bo.Y))
+					continue
 				}
-				// its bound
-				for _, r := range referrers(phi) {
-					bo, ok := r.(*ssa.BinOp)
-					if !ok || bo.Op != token.LSS || bo.X != ssa.Value(phi) {
-						continue
-					}
-					nLoops++
-					add, isAdd := bo.Y.(*ssa.BinOp)
-					prm, isPrm := derefCell(init).(*ssa.Parameter)
-					if !isPrm || !isAdd || add.Op != token.ADD || derefCell(add.X) != ssa.Value(prm) {
-						okRange = false
-						detail += fmt.Sprintf("loop from %s below %s; ", valName(init), valName(bo.Y))
-						continue
-					}
-					if _, isP2 := derefCell(add.Y).(*ssa.Parameter); !isP2 {
-						okRange = false
-						detail += "extent is not the argument; "
-					}
+				if _, isP2 := derefCell(add.Y).(*ssa.Parameter); !isP2 {
+					okRange = false
+					detail += "extent is not the argument; "
 				}
 			}
 		}
-		c.Check(okRange && nLoops == 2, rule, "LockRegion:range", p.pos(lr.Pos()), fmt.Sprintf("%d loops, each from the origin argument to origin+extent %s", nLoops, detail))
-	
+	}
+	c.Check(okRange && nLoops == 2, rule, "LockRegion:range", p.pos(lr.Pos()), fmt.Sprintf("%d loops, each from the origin argument to origin+extent %s", nLoops, detail))
+
 }
 
 // fieldBase: the struct pointer a field address belongs to (nil if v is not a field address).
